@@ -70,6 +70,13 @@ Theorem C14_rewritten_same_inode : forall e prof eager handler p f0 ip meta y,
   (forall j, j <> ip -> j < next_ino f0 -> inodes f' j = inodes f0 j).
 Proof. exact rewritten_in_place. Qed.
 
+(* obligation on the regenerated variant order of ProcessResult: Ignored < Noop < Replaced < Rewritten <
+   BadFormat < Error, and merging two results keeps the greater - an error outranks everything *)
+Theorem C14_result_order :
+  presult_order = map presult_name [Ignored; Noop; Replaced; Rewritten; BadFormat; Error] /\
+  forall a b, presult_rank (presult_max a b) = N.max (presult_rank a) (presult_rank b).
+Proof. exact presult_order_as_modelled. Qed.
+
 Print Assumptions C14_partition.
 Print Assumptions C14_parallel_sum.
 Print Assumptions C14_one_count_per_entry.
@@ -77,3 +84,4 @@ Print Assumptions C14_replaced_new_inode.
 Print Assumptions C14_not_replaced_untouched.
 Print Assumptions C14_merge_all_counters.
 Print Assumptions C14_rewritten_same_inode.
+Print Assumptions C14_result_order.
